@@ -6,6 +6,7 @@ C04-a  completeness and exact length: ranges are requested only while chunks are
 C04-b  nothing present is fetched again: scan and (when a source is given) copy precede the first range
        request; the range is recomputed inside the loop.
 C04-c  the match guard of zck_copy_chunks (C08-b) and the extents of range_add (C10-b).
+C04-d  the update loop reuses one zckDL: zck_dl_reset() resets every field the callbacks both read and write.
 Declined: byte identity of the result and exactness of the bytes requested against a real server.
 """
 from ..rules import dlmain, dlrules
@@ -42,6 +43,9 @@ def run(ctx):
               'zck_get_missing_range() and dl_range() are in the same loop: the request is recomputed after each '
               'response' if inside else 'the missing range is not recomputed per fetch', fn.file, fn.line, config=config)
         dlrules.copy_guard(ck, prog, config, 'C04-c')
+        # ---- d  "repeatedly request": every per-request field of zckDL is reset between requests (shared with C05-g)
+        from ..rules import extra
+        extra.check_dl_reset(ck, prog, config, 'C04-d')
 
 
 CLAIM = {
